@@ -49,7 +49,7 @@ def _is_iter_loop(node):
 
 class LoopCut:
     def __init__(self, func, ordinal=None, role=True):
-        self.func = getattr(func, "__func__", func)
+        self.func = inspect.unwrap(getattr(func, "__func__", func))  # (an interception wrapper is bypassed: the cut needs the real source and globals)
         src = textwrap.dedent(inspect.getsource(self.func))
         tree = ast.parse(src)
         fd = tree.body[0]
